@@ -441,6 +441,7 @@ class SSETransport(Transport):
 
             if message_id is not None:
                 # Request - setup for response handling
+                request_id = message_id  # id as sent (keeps its JSON type)
                 message_id = str(message_id)
                 future: asyncio.Future[Dict[str, Any]] = asyncio.Future()
                 async with self._message_lock:
@@ -490,7 +491,7 @@ class SSETransport(Transport):
                             # Send timeout error
                             error_response = {
                                 "jsonrpc": "2.0",
-                                "id": message_id,
+                                "id": request_id,
                                 "error": {"code": -32000, "message": "Request timeout"},
                             }
                             await self._route_incoming_message(error_response)
@@ -509,7 +510,7 @@ class SSETransport(Transport):
                             # Send error response
                             error_response = {
                                 "jsonrpc": "2.0",
-                                "id": message_id,
+                                "id": request_id,
                                 "error": {
                                     "code": -32603,
                                     "message": f"HTTP {response.status_code}: {response.text[:100]}",
@@ -522,7 +523,7 @@ class SSETransport(Transport):
                     # Send error response
                     error_response = {
                         "jsonrpc": "2.0",
-                        "id": message_id,
+                        "id": request_id,
                         "error": {"code": -32603, "message": str(e)},
                     }
                     await self._route_incoming_message(error_response)
